@@ -488,7 +488,7 @@ pub async fn c10_first_registrations_race(addr: SocketAddr, certs: &Certs, id: u
 /// per-stream receive window (`window` bytes: the 9-byte `Ok` fits, the replier-already-bound frame does not) stalls
 /// the server's refusal, reads nothing for a while, then reads to the end. It must see `Ok`, the refusal, and a
 /// clean end of stream; R1 must be served before, during and after.
-pub async fn c10_slow_rejected_replier(addr: SocketAddr, certs: &Certs, id: u64, window: u32, stall_ms: u64) -> std::result::Result<Findings, String> {
+pub async fn c10_slow_rejected_replier(addr: SocketAddr, certs: &Certs, id: u64, window: u32, stall_ms: u64, stalled_stranger: bool) -> std::result::Result<Findings, String> {
     let w = Duration::from_secs(10);
     let topic = format!("/l3c10s{}/slow-loser", id);
     let mut findings = vec![];
@@ -520,6 +520,20 @@ pub async fn c10_slow_rejected_replier(addr: SocketAddr, certs: &Certs, id: u64,
     }
     if let Err(e) = round(&mut q1, &mut r1, &hdr(0), b"before").await {
         return Err(format!("precondition not reached: {}", e));
+    }
+    // `stalled_stranger`: from now on, on an unrelated pub/sub topic, a peer asks for the wrong messaging pattern and never
+    // takes delivery of the refusal (16-byte window, reads nothing). None of C10's clauses may depend on it.
+    let mut _stranger = None;
+    if stalled_stranger {
+        let side = format!("/l3c10s{}/pubsub-side", id);
+        let c0 = raw_connect(addr, certs).await.map_err(|e| e.to_string())?;
+        let _side_sub = WireStream::register(&c0.conn, T_REG_SUB, &side, w).await?;
+        let tiny = raw_client_config_window(&read_der(&certs.client_ca()).map_err(|e| e.to_string())?, ClientIdentity::Cert(read_der(&certs.client_cert()).map_err(|e| e.to_string())?, read_der(&certs.client_key()).map_err(|e| e.to_string())?), Some(16)).map_err(|e| e.to_string())?;
+        let c4 = raw_connect_with(addr, tiny).await.map_err(|e| e.to_string())?;
+        let mut wrong = WireStream::open(&c4.conn).await.map_err(|e| e.to_string())?;
+        wrong.write(&enc_register(T_REG_REQ, &side)).await?;
+        tokio::time::sleep(Duration::from_millis(120)).await;
+        _stranger = Some((c0, _side_sub, c4, wrong));
     }
     // R2: registers, does not read
     let mut r2 = WireStream::open(&c2.conn).await.map_err(|e| e.to_string())?;
@@ -569,7 +583,7 @@ pub async fn c10_slow_rejected_replier(addr: SocketAddr, certs: &Certs, id: u64,
     }
     let during = serve_one(&mut q1, &mut r1, b"during").await;
     let after = round(&mut q1, &mut r1, &hdr(2), b"after").await;
-    let history = format!("R2 (rejected, {}-byte stream window, read nothing for {} ms) then read {:?}; R1 round trips: during {:?}, after {:?}", window, stall_ms, seen, during, after);
+    let history = format!("R2 (rejected, {}-byte stream window, read nothing for {} ms{}) then read {:?}; R1 round trips: during {:?}, after {:?}", window, stall_ms, if stalled_stranger { "; elsewhere a peer refused for the wrong pattern is not reading its refusal" } else { "" }, seen, during, after);
     if !told {
         findings.push(("rejected-replier-not-told/slow-loser".to_string(), format!("a second replier registered while the first was bound; it was never told replier-already-bound — {}", history)));
     } else if !clean {
@@ -582,6 +596,73 @@ pub async fn c10_slow_rejected_replier(addr: SocketAddr, certs: &Certs, id: u64,
         findings.push(("bound-replier-disturbed/slow-loser".to_string(), format!("once the refusal had been taken, the bound replier's traffic (a request made during the refusal, one made after it) did not get through: {} — {}", e, history)));
     }
     Ok(findings)
+}
+
+/// C11 with slow siblings: `idle` streams of one connection have sent only the first `k` bytes of their registration
+/// (a peer that writes in small pieces, or a proxy that forwards a header late) and stay open. Every *other* stream of
+/// that connection that sends a complete registration must still be answered and served; and each slow stream must be
+/// answered once its registration is complete.
+pub async fn c11_idle_sibling_streams(addr: SocketAddr, certs: &Certs, idle: usize, id: u64) -> std::result::Result<(u64, Findings), String> {
+    let w = Duration::from_secs(6);
+    let mut findings = vec![];
+    let c = raw_connect(addr, certs).await.map_err(|e| e.to_string())?;
+    let topic = format!("/l3c11i{}/slow-siblings", id);
+    let mut slow: Vec<(WireStream, Vec<u8>, usize)> = vec![];
+    for i in 0..idle {
+        let mut s = WireStream::open(&c.conn).await.map_err(|e| e.to_string())?;
+        let kind = [T_REG_SUB, T_REG_PUB, T_REG_REQ, T_REG_REP][i % 4];
+        let t = if kind == T_REG_SUB || kind == T_REG_PUB { format!("/l3c11i{}/slow-ps-{}", id, i) } else { format!("/l3c11i{}/slow-rr-{}", id, i) };
+        let reg = enc_register(kind, &t);
+        let k = [1usize, 4, 8, 9, 12, reg.len() - 1][i % 6].min(reg.len() - 1);
+        s.write(&reg[..k]).await?;
+        slow.push((s, reg, k));
+    }
+    tokio::time::sleep(Duration::from_millis(150)).await;
+    // a complete registration on the same connection
+    let mut evals = 0u64;
+    let served = async {
+        let mut sub = match WireStream::register(&c.conn, T_REG_SUB, &topic, w).await {
+            Ok(s) => s,
+            Err(e) => return Err(format!("subscriber registration: {}", e)),
+        };
+        let mut p = match WireStream::register(&c.conn, T_REG_PUB, &topic, w).await {
+            Ok(s) => s,
+            Err(e) => return Err(format!("publisher registration: {}", e)),
+        };
+        for _ in 0..30 {
+            p.write(&enc_message(None, b"through")).await?;
+            if let Next::Frame(WFrame::Message { body, .. }) = sub.next(Duration::from_millis(200)).await {
+                if body == b"through" {
+                    return Ok(());
+                }
+            }
+        }
+        Err("both registrations were answered Ok but no message got through in 6 s".to_string())
+    };
+    evals += 1;
+    if let Err(e) = served.await {
+        findings.push((
+            "accepted-then-abandoned/slow-sibling-streams".to_string(),
+            format!("{} streams of one connection had sent only the first 1–12 bytes of their registration and stayed open; a further stream of that connection sent a complete registration and ended up neither served nor refused: {}", idle, e),
+        ));
+    }
+    // the slow ones complete: each must be answered
+    let mut unanswered = vec![];
+    for (i, (s, reg, k)) in slow.iter_mut().enumerate() {
+        evals += 1;
+        s.write(&reg[*k..]).await?;
+        match s.next(w).await {
+            Next::Frame(WFrame::Ok) | Next::Frame(WFrame::Error { .. }) => {}
+            other => unanswered.push(format!("#{} ({} bytes first): {}", i, k, brief_next(&other))),
+        }
+    }
+    if !unanswered.is_empty() {
+        findings.push((
+            "no-verdict/slow-registration".to_string(),
+            format!("{} of {} streams whose registration arrived in two pieces were neither answered Ok nor refused within 6 s: {:?}", unanswered.len(), idle, &unanswered[..unanswered.len().min(5)]),
+        ));
+    }
+    Ok((evals, findings))
 }
 
 fn brief_next(n: &Next) -> String {
